@@ -121,10 +121,12 @@ AlleleIndex(als, ch) ==
   IF \E k \in 1..Len(als) : als[k] = ch THEN (CHOOSE k \in 1..Len(als) : als[k] = ch) - 1 ELSE -1
 CallRow(row, alleles) == [j \in 1..Len(row) |-> AlleleIndex(alleles[j], row[j])]
 
-RoundHalfEven(num, den) ==
+(* DP is the mean SNV depth as an integer: the nearest integer; an exact half may be reported either way *)
+(* (the property does not fix a rounding mode: relational)                                             *)
+Nearest(num, den) ==
   LET q == num \div den
       r == num % den
-  IN  IF 2 * r < den THEN q ELSE IF 2 * r > den THEN q + 1 ELSE IF q % 2 = 0 THEN q ELSE q + 1
+  IN  IF 2 * r < den THEN {q} ELSE IF 2 * r > den THEN {q + 1} ELSE {q, q + 1}
 
 RECURSIVE SumSeq(_)
 SumSeq(s) == IF s = <<>> THEN 0 ELSE Head(s) + SumSeq(Tail(s))
@@ -133,7 +135,7 @@ SumSeq(s) == IF s = <<>> THEN 0 ELSE Head(s) + SumSeq(Tail(s))
 PoolRows(rows, P)  == {t \in DOMAIN rows : <<t[1], t[2]>> \in P}
 RCount(rows, P)    == Cardinality(PoolRows(rows, P))
 SnvDp(rows, P, n)  == LET ts == PoolRows(rows, P) IN [j \in 1..n |-> Cardinality({t \in ts : rows[t][j] # Gap})]
-Dp(rows, P, n)     == RoundHalfEven(SumSeq(SnvDp(rows, P, n)), n)
+Dp(rows, P, n)     == Nearest(SumSeq(SnvDp(rows, P, n)), n)      \* set of admissible values
 CallRows(rows, P, alleles) == LET ts == PoolRows(rows, P) IN TLCEval([t \in ts |-> CallRow(rows[t], alleles)])
 RCalls(rows, P, alleles) ==
   LET cr == CallRows(rows, P, alleles)
@@ -143,7 +145,7 @@ Uniq(rows, P, alleles) ==        \* de-duplicated matrix: {<<distinct call row, 
   IN  {<<v, Cardinality({t \in DOMAIN cr : cr[t] = v})>> : v \in {cr[t] : t \in DOMAIN cr}}
 StatTuple(rows, P, alleles) ==
   LET sd == SnvDp(rows, P, Len(alleles))
-  IN  <<RCount(rows, P), sd, RoundHalfEven(SumSeq(sd), Len(alleles)), RCalls(rows, P, alleles)>>
+  IN  <<RCount(rows, P), sd, Nearest(SumSeq(sd), Len(alleles)), RCalls(rows, P, alleles)>>
 
 (* ------------------------------------------------------------------------ *)
 (* exhaustive instances: alphabet = product of four small sequences          *)
